@@ -427,14 +427,6 @@ Section Inv.
     unfold all_snapshot in Ha. apply andb_true_iff in Ha. destruct Ha. destruct s; cbn in E; congruence.
   Qed.
 
-  Lemma partial_sound sched ops progs c r :
-    d13_clause (run sched (init ops progs)) = true ->
-    In (c, r) (all_outputs (run sched (init ops progs))) -> r = Ok (f (ckey c)).
-  Proof.
-    intros Hd H. destruct (outputs_sound _ _ _ _ _ H) as [E|[E _]]; auto.
-    unfold d13_clause in Hd. rewrite forallb_forall in Hd. specialize (Hd _ H). subst r. discriminate.
-  Qed.
-
   (* ---------------------------------------------------------------- operands *)
   Lemma step_thread_operands sh t : operands (fst (step_thread sh t)) = operands sh.
   Proof.
@@ -601,6 +593,14 @@ Proof.
   - intros f conv. eexists _, _, _. apply d13_witness_raises. exact E.
 Qed.
 
+(* the source as it is now: unconditional, so that a revert to direct iteration (which flips the
+   generated parameter) breaks this proof *)
+Lemma source_schedule_independent : schedule_independent src_config.
+Proof.
+  intros f conv Hc ops progs sched c r H.
+  eapply (snapshot_sound src_config f conv Hc sched ops progs c r); [reflexivity | exact H].
+Qed.
+
 Lemma fixed_verdict : schedule_independent fixed_config.
 Proof.
   intros f conv Hc ops progs sched c r H.
@@ -640,11 +640,12 @@ Example snapshot_nonvacuous :
                      [(CCache STranspose 0 10, Ok 71); (CCache STranspose 0 12, Ok 85)]].
 Proof. vm_compute. auto. Qed.
 
-(* the domain clause is satisfiable by a schedule that does interleave two lookups with an insertion *)
-Example partial_nonvacuous :
-  let st := run_coarse src_config ex_f ex_conv [1; 1; 1; 1; 0; 1; 0; 1; 0; 1; 0; 1; 0; 0]%nat
-              (init [] (d13_threads STranspose)) in
-  d13_clause st = true /\ all_finished st = true /\
-  outputs st = [[(CCache STranspose 0 11, Ok 78)];
-                     [(CCache STranspose 0 10, Ok 71); (CCache STranspose 0 12, Ok 85)]].
+(* the variant the code had before the repair, on the witness schedule: the hypotheses of
+   cache_race_refuted are satisfiable and the race is the realistic one *)
+Definition direct_config : config := mkConfig false false (maxlen src_config) (csc_via_csr src_config).
+Example race_nonvacuous :
+  let st := run_coarse direct_config ex_f ex_conv d13_sched (init [] (d13_threads STranspose)) in
+  snap direct_config STranspose = false /\ all_finished st = true /\
+  outputs st = [[(CCache STranspose 0 11, Raise RuntimeError)];
+                [(CCache STranspose 0 10, Ok 71); (CCache STranspose 0 12, Ok 85)]].
 Proof. vm_compute. auto. Qed.
